@@ -114,8 +114,8 @@ class RefLens:
     def set_radius(self, v, k):
         self.surf[k]['R'] = v
         if self.surf[k]['shape'] == 'plane':
-            self.surf[k]['shape'] = 'sphere'
-            self.surf[k]['k'] = 0.0
+            # a radius edit changes the radius: the conic constant the surface carries (0 unless it was set) stays
+            self.surf[k]['shape'] = 'sphere' if not self.surf[k].get('k') else 'conic'
 
     def set_conic(self, v, k):
         self.surf[k]['k'] = v
